@@ -7,6 +7,8 @@ package gateway
 // what that function returned.
 
 import (
+	"context"
+
 	"github.com/nautilus/graphql"
 )
 
@@ -18,4 +20,10 @@ func VerifInjectFile(operations []*HTTPOperation, file graphql.Upload, paths []s
 // VerifParseOperations calls parseOperations.
 func VerifParseOperations(operationsJSON []byte) ([]*HTTPOperation, bool, error) {
 	return parseOperations(operationsJSON)
+}
+
+// VerifExecutionContext builds an ExecutionContext (its logger field is unexported) so that an
+// Executor can be driven directly with a hand-made plan.
+func VerifExecutionContext(ctx context.Context, logger Logger, plan *QueryPlan, variables map[string]interface{}) *ExecutionContext {
+	return &ExecutionContext{logger: logger, Plan: plan, Variables: variables, RequestContext: ctx}
 }
